@@ -78,22 +78,22 @@ def phaseLine (p : EPhase) : String :=
   | .locked _ => "loop"
 
 /-- one `Entry` call with nothing running concurrently: read (deterministic row) / write until it ends -/
-def soloFrom (fuel : Nat) (w : EWorld) (tid : Nat) : EWorld :=
+def soloFrom (fuel : Nat) (w : EWorld) (tid : Nat) (env : Env := env) : EWorld :=
   match fuel with
   | 0 => w
   | fuel + 1 =>
     match w.threads[tid]? with
     | some th =>
       match th.phase with
-      | .start pin => soloFrom fuel (eWrite env (eRead env w tid (detSel w.node th.issuer pin)) tid) tid
-      | .locked _ => soloFrom fuel (eWrite env w tid) tid
+      | .start pin => soloFrom fuel (eWrite env (eRead env w tid (detSel w.node th.issuer pin)) tid) tid env
+      | .locked _ => soloFrom fuel (eWrite env w tid) tid env
       | _ => w
     | none => w
 
-def entrySolo (now : Nat) (n : Node) (issuer purpose : String) : Node × String :=
+def entrySolo (now : Nat) (n : Node) (issuer purpose : String) (env : Env := env) : Node × String :=
   if purpose != "revocation" then (n, "err:purpose") else
   let w : EWorld := { node := n, threads := [{ issuer := issuer }], now := now }
-  let w' := soloFrom 40 w 0
+  let w' := soloFrom 40 w 0 env
   (w'.node, match w'.threads[0]? with | some th => phaseLine th.phase | none => "?")
 
 /-- one whole transaction of thread `tid` with nothing interleaved: select (deterministic row), then the write half -/
@@ -230,12 +230,14 @@ def emptyWorld : World := { a := { base := bases[0]! }, b := { base := bases[1]!
 def step (w : World) (j : Json) : World × List String :=
   let node := jNat j "node" == 1
   let n := w.get node
+  -- the harness makes `Sign` fail during this operation
+  let env : Env := if jBool j "signfail" then { env with signFails := true } else env
   match jStr j "op" with
   | "reset" =>
     let dids := (jStrs j "dids").filter (fun d => !hasSub d "unknown")
     ({ a := { base := bases[0]!, dids := dids }, b := { base := bases[1]!, dids := dids } }, ["reset"])
   | "entry" =>
-    let (n', l) := entrySolo w.now n (jStr j "issuer") (jStr j "purpose")
+    let (n', l) := entrySolo w.now n (jStr j "issuer") (jStr j "purpose") env
     (w.set node n', ["entry " ++ l])
   | "race" =>
     let (n', l) := entryRace w.now n (jStr j "issuer")
